@@ -34,7 +34,7 @@ def plan(tier):
     return {"cases": 3000 if tier == "quick" else 100000, "shards": 16, "case_timeout": 60, "shard_timeout": 3000,
             "min_nontrivial": 100,
             "min_counters": {"facts_asserted": 8000, "derived_facts_checked": 8000, "permutation_cases": 500,
-                             "field:sub_org_of": 500, "field:head_of": 300, "field:part_of": 300, "field:under": 100, "field:chairs": 50, "form:ctor": 200, "form:assign_keep": 30}}
+                             "field:sub_org_of": 500, "field:head_of": 300, "field:part_of": 300, "field:under": 100, "field:chairs": 50, "field:leads": 40, "form:ctor": 200, "form:assign_keep": 30}}
 
 
 def setup(ctx):
@@ -50,7 +50,8 @@ FIELD_KIND = {"works_for": ("person", "org", "single"), "head_of": ("chief", "or
               "member_of": ("person", "org", "list"), "members": ("org", "member", "set"),
               "sub_org_of": ("org", "org", "list"), "part_of": ("org", "org", "list"), "has_part": ("org", "org", "list"),
               "wholly_owned_by": ("org", "org", "list"), "under": ("unit", "org", "list"),
-              "chairs": ("chair", "org", "single"), "attends": ("delegate", "org", "list")}
+              "chairs": ("chair", "org", "single"), "attends": ("delegate", "org", "list"),
+              "leads": ("convener", "org", "list")}
 
 
 def gen_population(rng):
@@ -68,7 +69,7 @@ def gen_population(rng):
         # a role whose super-property lives on a subclass of the declared role taker type only
         visitors = []
         for i in range(rng.randint(1, 2)):
-            pop.append([f"v{i}", rng.choice(["Visitor", "Delegate", "Delegate"]), None])
+            pop.append([f"v{i}", rng.choice(["Visitor", "Delegate", "Delegate", "Convener", "Convener"]), None])
             visitors.append(f"v{i}")
         for i in range(rng.randint(1, 2)):
             pop.append([f"h{i}", "Chair", rng.choice(visitors)])
@@ -87,7 +88,9 @@ def names_of(pop, kind):
     if kind == "chair":
         return [p[0] for p in pop if p[0].startswith("h")]
     if kind == "delegate":
-        return [p[0] for p in pop if p[1] == "Delegate"]
+        return [p[0] for p in pop if p[1] in ("Delegate", "Convener")]
+    if kind == "convener":
+        return [p[0] for p in pop if p[1] == "Convener"]
     return [p[0] for p in pop if p[0][0] in "pc"]
 
 
